@@ -354,6 +354,11 @@ func (r *ledRunner) line(toks []string) (string, bool) {
 		case <-time.After(2 * time.Second):
 			return "stuck", true
 		}
+		// MIDI input and key events are handled by two goroutines: the script's order is the order of processing only
+		// if this message has been processed before the next operation is issued
+		if !r.syncMidi() {
+			return "stuck", true
+		}
 		return "", true
 	case "led.frame":
 		// every earlier operation has been processed (sync), then two further frames have arrived: the first of them
